@@ -90,3 +90,103 @@ Theorem sub_dup_refuted :
          Some (TrackerInc.sub_of obs pops').
 Proof. exact TrackerInc.sub_dup_refuted. Qed.
 Print Assumptions sub_dup_refuted.
+
+(* ---- MatrixBlocking (coq/Inv/TrackerMB.v): the ghost `ord` is the global order in which the currently blocked customers became blocked ---- *)
+From CiwV.Inv Require TrackerMB.
+
+Theorem run_many_mb :
+  forall (cf : State.config) (ds : list State.draws) 
+         (s s' : State.sim) (ord : list BinNums.Z),
+       TrackerInc.TInv cf s ->
+       TrackerMB.OrdOK s ord ->
+       Codec.run_many cf s ds = State.Ok s' ->
+       TrackerInc.TInv cf s' /\
+       TrackerMB.OrdOK s'
+         (TrackerMB.ord_run (TrackerInc.calls_many cf s ds) ord) /\
+       TrackerInc.orun TrackerMB.mb_step (TrackerInc.calls_many cf s ds)
+         (TrackerMB.mb_true s ord) =
+       Some
+         (TrackerMB.mb_true s'
+            (TrackerMB.ord_run (TrackerInc.calls_many cf s ds) ord)).
+Proof. exact TrackerMB.run_many_mb. Qed.
+Print Assumptions run_many_mb.
+
+Theorem mb_means :
+  forall (cf : State.config) (s : State.sim) (ord : list BinNums.Z),
+       TrackerInc.TInv cf s ->
+       TrackerMB.OrdOK s ord ->
+       List.NoDup ord /\
+       (forall y : BinNums.Z,
+        List.In y ord <->
+        (exists x : State.ind,
+           Engine.find_ind y (State.inds s) = Some x /\
+           State.i_blocked x = true)) /\
+       (forall (d : BinNums.Z) (nd : State.node),
+        Blocking.nodeZ s d = Some nd ->
+        List.map snd (State.n_bq nd) =
+        List.filter (TrackerMB.blocked_to s d) ord) /\
+       (forall a b z : BinNums.Z,
+        List.In z
+          (TrackerMB.cellF (TrackerMB.isblk s a b) 
+             (BinNums.Zpos BinNums.xH) ord) ->
+        BinInt.Z.le (BinNums.Zpos BinNums.xH) z /\
+        BinInt.Z.le z (Prelude.zlen ord)) /\
+       (forall k : BinNums.Z,
+        BinInt.Z.le (BinNums.Zpos BinNums.xH) k /\
+        BinInt.Z.le k (Prelude.zlen ord) ->
+        exists a b : BinNums.Z,
+          (BinInt.Z.le (BinNums.Zpos BinNums.xH) a /\
+           BinInt.Z.le a (BinInt.Z.of_nat (TrackerMB.nN s))) /\
+          (BinInt.Z.le (BinNums.Zpos BinNums.xH) b /\
+           BinInt.Z.le b (BinInt.Z.of_nat (TrackerMB.nN s))) /\
+          List.In k
+            (TrackerMB.cellF (TrackerMB.isblk s a b)
+               (BinNums.Zpos BinNums.xH) ord)) /\
+       (forall a b a' b' z : BinNums.Z,
+        List.In z
+          (TrackerMB.cellF (TrackerMB.isblk s a b) 
+             (BinNums.Zpos BinNums.xH) ord) ->
+        List.In z
+          (TrackerMB.cellF (TrackerMB.isblk s a' b')
+             (BinNums.Zpos BinNums.xH) ord) -> a = a' /\ b = b') /\
+       (forall a b : BinNums.Z,
+        List.NoDup
+          (TrackerMB.cellF (TrackerMB.isblk s a b) 
+             (BinNums.Zpos BinNums.xH) ord)) /\
+       List.map State.n_pop (State.nodes s) =
+       List.map
+         (fun nd : State.node => Prelude.zlen (Engine.all_individuals nd))
+         (State.nodes s).
+Proof. exact TrackerMB.mb_means. Qed.
+Print Assumptions mb_means.
+
+Theorem mb_never_negative :
+  forall (cf : State.config) (ds : list State.draws) 
+         (s s' : State.sim) (ord : list BinNums.Z)
+         (m : list (list (list BinNums.Z))) (pops : list BinNums.Z)
+         (inc : BinNums.Z),
+       TrackerInc.TInv cf s ->
+       TrackerMB.OrdOK s ord ->
+       Codec.run_many cf s ds = State.Ok s' ->
+       TrackerInc.orun TrackerMB.mb_step (TrackerInc.calls_many cf s ds)
+         (TrackerMB.mb_true s ord) = Some (m, pops, inc) ->
+       (forall (row : list (list BinNums.Z)) (c : list BinNums.Z)
+          (z : BinNums.Z),
+        List.In row m ->
+        List.In c row ->
+        List.In z c ->
+        BinInt.Z.le (BinNums.Zpos BinNums.xH) z /\ BinInt.Z.lt z inc) /\
+       (forall k : BinNums.Z,
+        BinInt.Z.le (BinNums.Zpos BinNums.xH) k /\ BinInt.Z.lt k inc ->
+        exists (row : list (list BinNums.Z)) (c : list BinNums.Z),
+          List.In row m /\ List.In c row /\ List.In k c) /\
+       List.Forall (fun z : BinNums.Z => BinInt.Z.le BinNums.Z0 z) pops /\
+       BinInt.Z.le (BinNums.Zpos BinNums.xH) inc.
+Proof. exact TrackerMB.mb_never_negative. Qed.
+Print Assumptions mb_never_negative.
+
+Theorem mbinv_b_sound :
+  forall (cf : State.config) (s : State.sim) (ord : list BinNums.Z),
+       TrackerMB.mbinv_b cf s ord = true -> TrackerMB.MBInv cf s ord.
+Proof. exact TrackerMB.mbinv_b_sound. Qed.
+Print Assumptions mbinv_b_sound.
